@@ -57,6 +57,14 @@ CHECKS["C05"] = dict(level="exploration", ref="DESIGN.md §4 C05",
     note="Trusted: the format-agnostic re-rendering of doubles (Python %e/%f/%g equals C printf for finite values), heading-name mapping with positional fallback. Known findings KF17/KF18 (= KF1/KF4 seen through this property) are reported as KNOWN-FINDING.",
     technique="deterministic simulation: seeded sink-configuration histories over a simulated file layer; replica agreement between table, string, lines, file and bindings; sink faults")
 
+CHECKS["C04"] = dict(level="exploration", ref="DESIGN.md §4 C04",
+    text="Seeded search over call histories that deliver one error-free multi-simulation text: cut sets over its END positions, per piece one of the three entry "
+         "points, read chunking and EINTR on RunFile pieces (delivery faults that must be transparent) and benign accessor calls between pieces. Oracle: the "
+         "concatenated selected-output data rows (by heading name, bitwise, sim column excepted), the final DUMP -all text (simulation numbers in descriptions masked) "
+         "and the component list equal those of a single RunString of the whole text on a fresh instance; every piece returns 0.",
+    note="Trusted: reference is the same library along the single-call path. Inputs whose single-call reference returns errors are skipped and counted. GetComponentCount/GetComponent are not used as benign calls (ListComponents rewrites the KINETICS -totals workspace field; recorded in DESIGN).",
+    technique="deterministic simulation: seeded delivery histories (cut sets x entry points x read chunking/EINTR x benign calls) vs single-call reference execution")
+
 NA = {
     "C01": "pure function of (input, database): deciding it needs an independent thermodynamic evaluator, no schedule, clock, fault or call history takes part",
     "C03": "pure function of the input assemblage; the only fault-like path (solver retry ladder) is exercised under C02",
@@ -69,7 +77,7 @@ NA = {
     "C19": "pure function of the gas-phase input",
     "C20": "pure function of the surface input",
 }
-PENDING = {k: "claimed in DESIGN.md; its check is still under construction in this build phase and is not registered yet" for k in ("C02","C04","C10","C14")}
+PENDING = {k: "claimed in DESIGN.md; its check is still under construction in this build phase and is not registered yet" for k in ("C02","C10","C14")}
 
 
 def main():
